@@ -125,7 +125,15 @@ func c17Text(r *h.Rand, v *tref.Val, t *gen.Type, noBase64 bool) string {
 		}
 		return []string{"false", "0", "F", "False"}[r.Intn(4)]
 	case tref.BYTE, tref.I16, tref.I32, tref.I64:
-		return strconv.FormatInt(v.I, 10)
+		s := strconv.FormatInt(v.I, 10)
+		if r.Chance(15) {
+			// zero-padded decimal text is still decimal
+			if v.I < 0 {
+				return "-" + strings.Repeat("0", 1+r.Intn(3)) + s[1:]
+			}
+			return strings.Repeat("0", 1+r.Intn(3)) + s
+		}
+		return s
 	case tref.DOUBLE:
 		return strconv.FormatFloat(v.F, 'g', -1, 64)
 	case tref.LIST:
